@@ -444,6 +444,35 @@ func (a *boundAn) exitBounded(h *ssa.BasicBlock, body map[*ssa.BasicBlock]bool, 
 			}
 		}
 	}
+	// shrinking text held in a field: stays while len(c.rest) > 0 where every trip around the loop calls a method of the
+	// repository on the same receiver that stores a reslice of that field back into it (a cursor consuming its text)
+	if call, ok := bin.X.(*ssa.Call); ok && builtinName(&call.Call) == "len" && (op == token.GTR || op == token.NEQ) {
+		if ld, ok := call.Call.Args[0].(*ssa.UnOp); ok && ld.Op == token.MUL {
+			if fa, ok := ld.X.(*ssa.FieldAddr); ok && isStringType(derefType(fa.Type())) {
+				for blk := range body {
+					dominatesBack := true
+					for i, pred := range h.Preds {
+						_ = i
+						if body[pred] && !blk.Dominates(pred) {
+							dominatesBack = false
+						}
+					}
+					if !dominatesBack {
+						continue
+					}
+					for _, in := range blk.Instrs {
+						c, ok := in.(*ssa.Call)
+						if !ok || len(c.Call.Args) == 0 || c.Call.Args[0] != fa.X {
+							continue
+						}
+						if cf := calleeOf(&c.Call); cf != nil && len(cf.Blocks) > 0 && cf.Pkg == h.Parent().Pkg && reslicesField(cf, fieldName(fa)) {
+							return true, "every iteration consumes part of the text whose emptiness ends the loop"
+						}
+					}
+				}
+			}
+		}
+	}
 	// walking a linked structure towards nil: stays while p != nil where p is a header phi advanced only by p = p.field
 	if op == token.NEQ && (isNilConst(bin.X) || isNilConst(bin.Y)) {
 		pv := bin.X
@@ -527,6 +556,46 @@ func (a *boundAn) exitBounded(h *ssa.BasicBlock, body map[*ssa.BasicBlock]bool, 
 		return ok, why
 	}
 	return false, "unrecognised exit condition " + bin.String()
+}
+
+// reslicesField: on every path the method stores into field name of its receiver a slice of that field's old value.
+func reslicesField(fn *ssa.Function, name string) bool {
+	if len(fn.Params) == 0 {
+		return false
+	}
+	stores := 0
+	for _, b := range fn.Blocks {
+		for _, in := range b.Instrs {
+			st, ok := in.(*ssa.Store)
+			if !ok {
+				continue
+			}
+			fa, ok := st.Addr.(*ssa.FieldAddr)
+			if !ok || fa.X != ssa.Value(fn.Params[0]) || fieldName(fa) != name {
+				continue
+			}
+			sl, ok := st.Val.(*ssa.Slice)
+			if !ok {
+				return false
+			}
+			ld, ok := sl.X.(*ssa.UnOp)
+			if !ok || ld.Op != token.MUL {
+				return false
+			}
+			fa2, ok := ld.X.(*ssa.FieldAddr)
+			if !ok || fa2.X != ssa.Value(fn.Params[0]) || fieldName(fa2) != name {
+				return false
+			}
+			// the store must be on every path: its block dominates every return
+			for _, ret := range returnsOf(fn) {
+				if !b.Dominates(ret.Block()) {
+					return false
+				}
+			}
+			stores++
+		}
+	}
+	return stores > 0
 }
 
 // reslicesOf: v is obtained from phi only by slicing (s[k:], s[:k]).
